@@ -59,6 +59,31 @@ class LogAccessor(Mapping):
         return len(self.inner)
 
 
+SOLVE_CPU_SECONDS = 60      # processor time one solve() may use (the largest base return needs about 3 s)
+
+
+class cpu_limit(object):
+    """a solve that spins without attempting a line or asking anything (so that neither the attempt counter nor the prompt
+    counter sees it) is cut off after SOLVE_CPU_SECONDS of processor time and reported as non-termination"""
+
+    def __enter__(self):
+        import signal, threading
+        self.on = threading.current_thread() is threading.main_thread()
+        if self.on:
+            def fire(signum, frame):
+                raise NonTermination(f'solve() used more than {SOLVE_CPU_SECONDS} s of processor time')
+            self.old = signal.signal(signal.SIGVTALRM, fire)
+            signal.setitimer(signal.ITIMER_VIRTUAL, SOLVE_CPU_SECONDS)
+        return self
+
+    def __exit__(self, *a):
+        import signal
+        if self.on:
+            signal.setitimer(signal.ITIMER_VIRTUAL, 0)
+            signal.signal(signal.SIGVTALRM, self.old)
+        return False
+
+
 RUNAWAY = 400       # attempts of one line in one solve (the C06 bound, 1 + distinct waits, is far below this)
 
 
@@ -289,7 +314,8 @@ def run_solve(form_list, requested, file_inputs, answer=None, schedule=None, ins
     r.verdict = None
     try:
         try:
-            r.verdict = s.solve(list(requested), list(field_names)) if field_names else s.solve(list(requested))
+            with cpu_limit():
+                r.verdict = s.solve(list(requested), list(field_names)) if field_names else s.solve(list(requested))
         finally:
             hsolver._verif_key = None
     except RecursionError as e:
